@@ -93,6 +93,9 @@ bool BinarySynthes::IsCorrectlyDefined() const noexcept {
 }
 
 std::unique_ptr<semantic::RSForm> BinarySynthes::Execute() {
+  if (resultSchema == nullptr) {
+    ResetResult(); // Note: result of the previous run was handed over to the caller
+  }
   if (!IsCorrectlyDefined()) {
     return nullptr;
   }
